@@ -2047,6 +2047,13 @@ FLOWFUNCS = [
     dict(coq="gen_send_request_can_proceed", file="src/client/flow.rs", impl=r"impl<B>\s+Flow<B,\s*SendRequest>", rust="can_proceed",
          subst=[(r"&self\.inner\.call", "holder")], params=[("holder", "val", "holder_view", None)],
          methods={"is_finished": "gen_call_wob_is_finished", "is_body": "gen_phase_is_body"}, rust_ret="bool"),
+    # src/client/call.rs: Call<WithoutBody>::into_send_body (send_body_despite_method): only before the analysis; the method check is
+    # switched off and the body defaults to chunked
+    dict(coq="gen_into_send_body", file="src/client/call.rs", impl=r"impl<B>\s+Call<WithoutBody,\s*B>", rust="into_send_body",
+         subst=[(r"self\.analyzed", "analyzed"), (r"self\.state\.skip_method_body_check", "skip_method_body_check"), (r"self\.state\.writer", "cur_writer"),
+                (r"(?s)Call \{.*?_ph: PhantomData,\s*\}", "()")],
+         params=[("analyzed", "val", "bool", None), ("skip_method_body_check", "mutval", "bool", None), ("cur_writer", "mutval", "writer", None)],
+         functions={"BodyWriter::new_chunked": "new_chunked"}, rust_ret="()"),
     # src/ext.rs: HeaderIterExt::has (the test behind `Connection: close` and `Expect: 100-continue`): some field with that name has that value
     dict(coq="gen_headers_has", file="src/ext.rs", impl=None, rust="has", kind="plain", bytes_vars=["key", "value"],
          subst=[(r"self\s*\.filter", "headers.iter().filter")],
